@@ -67,6 +67,55 @@ pub fn family_e_jobs(plan: &[(usize, bool, usize)], budget_programs: usize) -> (
     (jobs, json!(summary))
 }
 
+/// boundary grid of a wide integer type
+pub fn grid_wide(t: IntTy) -> Vec<i128> {
+    let (lo, hi) = (IntTy::min(t), IntTy::max(t));
+    let half = 1i128 << (t.bits() / 2);
+    let mut v = vec![0, 1, 2, 3, hi, hi - 1, hi / 2, hi / 2 + 1, half - 1, half, half + 1, 255, 256, 7];
+    if t.signed() {
+        v.extend([lo, lo + 1, -1, -2, -half, lo / 2, -128, -129]);
+    }
+    v.retain(|x| *x >= lo && *x <= hi);
+    v.sort();
+    v.dedup();
+    v
+}
+
+/// Family E over wide main types: (main types, k values)
+pub fn family_e_wide_jobs(mains: &[IntTy], ks: &[usize], grid: usize) -> (Vec<Job>, serde_json::Value) {
+    let mut jobs = vec![];
+    let mut summary = vec![];
+    for main in mains {
+        let main = *main;
+        let mut g = EGen::new(ECfg::wide(main));
+        let mut xs = grid_wide(main);
+        // keep the extremes when the grid is cut
+        if xs.len() > grid {
+            let keep: Vec<i128> = xs.iter().copied().filter(|x| [0, 1, IntTy::max(main), IntTy::max(main) - 1, IntTy::min(main), -1, IntTy::max(main) / 2 + 1].contains(x)).collect();
+            let rest: Vec<i128> = xs.iter().copied().filter(|x| !keep.contains(x)).collect();
+            let mut cut = keep;
+            cut.extend(rest.into_iter().take(grid.saturating_sub(cut.len())));
+            cut.sort();
+            xs = cut;
+        }
+        let inputs: Arc<Vec<Vec<Val>>> = Arc::new(pairs(&xs, main));
+        for k in ks {
+            let mut n = 0usize;
+            let mut tys = vec![Ty::Int(main), Ty::Bool];
+            tys.extend(g.cfg.others.iter().filter(|t| **t != Ty::Bool).cloned());
+            for ret in tys {
+                let es = g.gen(&ret, *k);
+                for e in es.iter() {
+                    jobs.push(Job { family: "E", site: format!("E/{}/k{}/{}", main.name(), k, shape(e)), prog: g.program(e, &ret), inputs: inputs.clone() });
+                    n += 1;
+                }
+            }
+            summary.push(json!({"family": "E-wide", "main": main.name(), "k": k, "inputs_per_program": inputs.len(), "programs": n}));
+        }
+    }
+    (jobs, json!(summary))
+}
+
 pub struct FamilyRun {
     pub counters: Counters,
     pub coll: Collector,
@@ -127,6 +176,15 @@ pub fn family_jobs(tier: Tier, families: &[&str]) -> (Vec<Job>, serde_json::Valu
         jobs.extend(js);
         plan.insert("E".into(), pl);
     }
+    if families.contains(&"E-wide") {
+        use IntTy::*;
+        let (js, pl) = match tier {
+            Tier::Quick => family_e_wide_jobs(&[U64, I64, Usize], &[0, 1], 6),
+            Tier::Thorough => family_e_wide_jobs(&[U64, I64, U16, I16, U32, I32, Usize], &[0, 1, 2], 14),
+        };
+        jobs.extend(js);
+        plan.insert("E-wide".into(), pl);
+    }
     if families.contains(&"S") {
         let (js, pl) = fam_s::family_s_jobs(tier);
         jobs.extend(js);
@@ -168,7 +226,7 @@ pub fn attribution_for(j: &Job) -> Attribution {
     }
 }
 
-pub const FAMILY_RULE: &str = "family E: every typed expression tree with exactly k operator nodes (8 arithmetic/bit ops, shifts, 6 comparisons, && ||, - !, casts among 6 types, if, match, let-block, call) over leaves {x, y, boundary literals}, for (x,y) in u8^2 and i8^2; family S: every sequence of <=n statement templates (27 simple: plain/op-assignment through 0-2 accessors with constant and input-dependent indices, aggregate copies, shadowing, calls mutating their parameter, side-effecting operand blocks; compound: if / if-else / match / for / for-range / block / for-join / nested if-in-for with bodies from a core set) over 7 variables, returning all of them; family X: an effect block (assigns to a mutable variable of main and/or fails, then yields a value) placed in every expression position - if condition, match scrutinee, either operand of every operator, call argument, aggregate literal element, index, cast, let initialiser, assignment right-hand side, loop iterable - including positions whose value does not depend on it (0*H, H&0, (H,7).1, if true {..}, ...) and pairs of sibling blocks (evaluation order); family L: a few programs with 10^5 - 10^6 gates (the same product / quotient before and after many unrelated ones), so that size-dependent behaviour is seen; family I (value part): every template by which an integer literal meets its type, each literal suffixed or not in every subset, must - when accepted - compute the outputs of the fully suffixed program; family P: every sequence of <=n (failing-operation site x conditional wrapper) pairs incl. verbatim repeats and constant-foldable sites; every program is compiled by the real compiler in each configuration and evaluated by the real evaluator on every input of its input set; oracle = reference interpreter (value, panic reason, panic location); non-trivial = program with >=2 distinct observed outputs";
+pub const FAMILY_RULE: &str = "family E: every typed expression tree with exactly k operator nodes (8 arithmetic/bit ops, shifts, 6 comparisons, && ||, - !, casts among 6 types, if, match, let-block, call) over leaves {x, y, boundary literals}, for (x,y) in u8^2 and i8^2, and (k <= 1, thorough k <= 2) over u64/i64/u16/i32/usize with boundary grids; family S: every sequence of <=n statement templates (27 simple: plain/op-assignment through 0-2 accessors with constant and input-dependent indices, aggregate copies, shadowing, calls mutating their parameter, side-effecting operand blocks; compound: if / if-else / match / for / for-range / block / for-join / nested if-in-for with bodies from a core set) over 7 variables, returning all of them; family X: an effect block (assigns to a mutable variable of main and/or fails, then yields a value) placed in every expression position - if condition, match scrutinee, either operand of every operator, call argument, aggregate literal element, index, cast, let initialiser, assignment right-hand side, loop iterable - including positions whose value does not depend on it (0*H, H&0, (H,7).1, if true {..}, ...) and pairs of sibling blocks (evaluation order); family L: a few programs with 10^5 - 10^6 gates (the same product / quotient before and after many unrelated ones), so that size-dependent behaviour is seen; family I (value part): every template by which an integer literal meets its type, each literal suffixed or not in every subset, must - when accepted - compute the outputs of the fully suffixed program; family P: every sequence of <=n (failing-operation site x conditional wrapper) pairs incl. verbatim repeats and constant-foldable sites; every program is compiled by the real compiler in each configuration and evaluated by the real evaluator on every input of its input set; oracle = reference interpreter (value, panic reason, panic location); non-trivial = program with >=2 distinct observed outputs";
 
 pub fn coverage_json(fr: &FamilyRun, rule: &str, budget: &Budget) -> serde_json::Value {
     json!({
@@ -220,5 +278,5 @@ pub fn run_shared(property: &'static str, tier: Tier, families: &[&str], extra_a
 }
 
 pub fn run(tier: Tier) -> i32 {
-    run_shared("C01", tier, &["E", "S", "T", "P", "X", "L"], vec![])
+    run_shared("C01", tier, &["E", "E-wide", "S", "T", "P", "X", "L"], vec![])
 }
